@@ -33,9 +33,17 @@ def run(tier, seed):
             binary = build(variant)
             descs = seqprop.make_descs(base, variant, binary, int(nseq * frac), common.NPROC * mult, seed)
             total.merge(common.run_shards(seqprop.shard, descs))
+        import bigcount
+        for variant in ('release', 'dev'):
+            binary = build(variant)
+            bc = [(t, ka, kb) for t in ('Skewness', 'Kurtosis') for ka, kb in [(16, 16), (31, 31), (32, 32), (33, 0), (33, 33), (40, 20), (53, 0)]]
+            descs = [{'name': 'b%s%d' % (variant[0], s), 'variant': variant, 'binary': binary, 'work': bc[s::8], 'prop': PROP,
+                      'ar_work': ([(('Skewness', 'Kurtosis')[s % 2], 2 ** 32 + 1000 + s)] if (tier == 'thorough' and variant == 'release' and s < 4) else []),
+                      'seed': seed * 7 + s} for s in range(8)]
+            total.merge(common.run_shards(bigcount.shard, descs))
     except common.Inconclusive as e:
         total.inconclusive.append(str(e))
     return common.finish(PROP, tier, seed, total, RULE, t0, ASSUME,
-                         min_events={'nontrivial_states': 1000, 'seen_skew_pos': 20, 'seen_skew_neg': 20,
+                         min_events={'bigcount_states_above_2^32': 20, 'nontrivial_states': 1000, 'seen_skew_pos': 20, 'seen_skew_neg': 20,
                                      'seen_kurt_pos': 20, 'seen_kurt_neg': 20},
                          extra={'builds': [v for v, _ in variants]})
